@@ -11,17 +11,31 @@
 
   "Every contract-conforming backend" is `∀ B, B.Lawful → …` (Spec/Lawful.lean); the Vec backend
   is one of them (`vecBackend_lawful`), so every theorem below, instantiated at
-  `B₁ := vecBackend`, compares an arbitrary lawful backend with the Vec backend.  All theorems are
+  `B₁ := vecBackend`, compares an arbitrary lawful backend with the Vec backend.  The theorems are
   corollaries of the characterisation theorems of C01, C02, C06, C15, C17, C18, which are stated
   for an arbitrary lawful backend and characterise the result by backend-free data.
+
+  PROVED: `compose_indep`, `compose_congr` (isomorphic operands), `tensor_indep`, `layer_indep`
+  (EQUAL), `layeredOperations_indep` (groupwise permutation), `isAcyclic_indep`,
+  `isMonogamous_indep`, `isMonomorphism_indep`, `validate_indep`, `isConvexSubgraph_indep` (EQUAL),
+  `coequalizer_indep` (same kernel, same number of classes, bijective renumbering),
+  `universal_indep` (EQUAL), `functor_indep` = `mapArrow_indep_of_compose` (strict functor
+  application, up to `≅`), `advBackend_lawful` + witnesses (§9),
+  `eval_validity_indep`, `eval_indep` (EQUAL; restating Props/C16).
+  PARTIAL / STATEMENT ONLY: optics (`optic_indep_partial`: reduction to the optic's action on
+  operations; `optic_mapOperations_indep_statement`).
 -/
 import OHVerif.Props.C01
 import OHVerif.Props.C02
+import OHVerif.Props.C04
 import OHVerif.Props.C06
+import OHVerif.Props.C12
 import OHVerif.Props.C15
+import OHVerif.Props.C16
 import OHVerif.Props.C17
 import OHVerif.Props.C18
 import OHVerif.Lemmas.KahnRel
+import OHVerif.Model.Functor
 import OHVerif.Lemmas.BackendIndep
 
 namespace OH.C20
@@ -262,8 +276,393 @@ theorem universalFinFun_indep (B₁ B₂ : Backend) (q : FinFun) (hq : q.WF) (hs
 example : (⟨[0, 1, 0, 1], 2⟩ : FinFun).WF ∧ C06.Surj ⟨[0, 1, 0, 1], 2⟩ :=
   ⟨by decide, by unfold C06.Surj; decide⟩
 
-/-- surjectivity cannot be dropped: off the image the scatter filler shows, and two lawful
-    backends may pick different fillers -/
-def lastFillerBackend : Backend := { vecBackend with fillerIdx := fun n => n - 1 }
+/-! ## 7. evaluation (restating Props/C16) -/
+
+/-- layer-validity outcome of `eval`, ANY callback and input list: on every lawful backend the
+    evaluation never panics and reports absence iff some operation lies on or downstream of a
+    dependency cycle — a backend-free condition; hence the two backends agree on validity -/
+theorem eval_validity_indep {T : Type} (B₁ B₂ : Backend) (h₁ : B₁.Lawful) (h₂ : B₂.Lawful)
+    (f : OHG O A) (hf : f.wf = true) (dflt : T) (s : List T) (apply : Apply A T) :
+    (eval B₁ f dflt s apply = .none ↔ eval B₂ f dflt s apply = .none) ∧
+    ((∃ outs, eval B₁ f dflt s apply = .ok outs) ↔ (∃ outs, eval B₂ f dflt s apply = .ok outs)) ∧
+    (∀ site, eval B₁ f dflt s apply ≠ .panic site ∧ eval B₂ f dflt s apply ≠ .panic site) :=
+  ⟨(C16.eval_none_iff B₁ h₁ f hf dflt s apply).trans (C16.eval_none_iff B₂ h₂ f hf dflt s apply).symm,
+   (C16.eval_ok_iff B₁ h₁ f hf dflt s apply).trans (C16.eval_ok_iff B₂ h₂ f hf dflt s apply).symm,
+   fun site => ⟨C16.eval_no_panic B₁ h₁ f hf dflt s apply site,
+     C16.eval_no_panic B₂ h₂ f hf dflt s apply site⟩⟩
+
+/-- **evaluation outcomes are identical** (`C16.eval_backend_independent`): for the pointwise
+    interpreter `Eval.applyOf opfn` respecting the arities, on a well-formed diagram in which every
+    node is written at most once and an input list of the right length, `eval` returns EQUAL
+    answers on all lawful backends (both `none` when there is a cycle).  The side conditions are
+    those of C16: two operations of one layer writing the same node, or an operation returning too
+    few values, would make the outcome depend on the order inside the layer, i.e. on the tie
+    order of `argsort`. -/
+theorem eval_indep {T : Type} (B₁ B₂ : Backend) (h₁ : B₁.Lawful) (h₂ : B₂.Lawful)
+    (f : OHG O A) (hf : f.wf = true) (opfn : A → List T → List T) (dflt : T) (s : List T)
+    (hsw : SingleWriter f.toPlain) (har : C16.ArityOK f opfn) (hs : s.length = f.s.table.length) :
+    eval B₁ f dflt s (Eval.applyOf opfn) = eval B₂ f dflt s (Eval.applyOf opfn) :=
+  C16.eval_backend_independent B₁ B₂ h₁ h₂ f hf opfn dflt s hsw har hs
+
+/-- the hypotheses are satisfiable (the C16 witness: two operations in one layer) -/
+example : C16.Example.f.wf = true ∧ SingleWriter C16.Example.f.toPlain ∧
+    C16.ArityOK C16.Example.f C16.Example.opfn :=
+  ⟨C16.Example.f_wf, C16.Example.f_singleWriter, C16.Example.f_arity⟩
+
+/-! ## 8. functor and optic application -/
+
+/-- `≅` on the plain views, lifted to results: both `none`, or both a panic at the same site, or
+    both diagrams, isomorphic -/
+def ResIso {O A : Type} (r₁ r₂ : Res (OHG O A)) : Prop :=
+  ResRel (fun a b : OHG O A => a.toPlain ≅ b.toPlain) r₁ r₂
+
+/-- … additionally recording that both diagrams are well-formed -/
+def ResWfIso {O A : Type} (r₁ r₂ : Res (OHG O A)) : Prop :=
+  ResRel (fun a b : OHG O A => a.wf = true ∧ b.wf = true ∧ a.toPlain ≅ b.toPlain) r₁ r₂
+
+/-- isomorphic well-formed diagrams have the same boundary types -/
+theorem type_eq_of_iso (f f' : OHG O A) (hf : f.wf = true) (hf' : f'.wf = true)
+    (i : f.toPlain ≅ f'.toPlain) : f.source = f'.source ∧ f.target = f'.target := by
+  obtain ⟨π, _, _, _, nπ, _, insπ, outsπ⟩ := i
+  obtain ⟨w1, w2, _⟩ := (PDiag.wf_iff _).1 (Compose.toPlain_wf ((Compose.wf_iff f).1 hf))
+  have key : ∀ l : List Nat, (∀ v ∈ l, v < f.h.w.length) →
+      (l.map π).filterMap (fun i => f'.h.w[i]?) = l.filterMap (fun i => f.h.w[i]?) := by
+    intro l hl
+    rw [List.filterMap_map]
+    apply List.filterMap_congr
+    intro v hv
+    exact nπ v (hl v hv)
+  rw [(C01.types_defined f hf).1, (C01.types_defined f hf).2, (C01.types_defined f' hf').1,
+    (C01.types_defined f' hf').2]
+  have h1 : f'.s.table = f.s.table.map π := insπ
+  have h2 : f'.t.table = f.t.table.map π := outsπ
+  have k1 := key f.s.table w1
+  have k2 := key f.t.table w2
+  rw [h1, h2, k1, k2]
+  exact ⟨rfl, rfl⟩
+
+/-- CONGRUENCE of composition (strengthens `compose_indep`): on two lawful backends and with
+    ISOMORPHIC well-formed operands, `compose` gives both `none` or both well-formed isomorphic
+    diagrams -/
+theorem compose_congr [DecidableEq O] (B₁ B₂ : Backend) (h₁ : B₁.Lawful) (h₂ : B₂.Lawful)
+    (f g f' g' : OHG O A) (hf : f.wf = true) (hg : g.wf = true) (hf' : f'.wf = true)
+    (hg' : g'.wf = true) (iF : f.toPlain ≅ f'.toPlain) (iG : g.toPlain ≅ g'.toPlain) :
+    ResWfIso (OHG.compose B₁ f g) (OHG.compose B₂ f' g') := by
+  have tf := (type_eq_of_iso f f' hf hf' iF).2
+  have tg := (type_eq_of_iso g g' hg hg' iG).1
+  unfold ResWfIso
+  by_cases hty : f.target = g.source
+  · have hty' : f'.target = g'.source := by rw [← tf, ← tg]; exact hty
+    obtain ⟨r₁, e₁⟩ := (C01.compose_total B₁ h₁ f g hf hg).1 hty
+    obtain ⟨r₂, e₂⟩ := (C01.compose_total B₂ h₂ f' g' hf' hg').1 hty'
+    obtain ⟨gl₁, w₁⟩ := C01.compose_isGluing B₁ h₁ f g r₁ hf hg e₁
+    obtain ⟨gl₂, w₂⟩ := C01.compose_isGluing B₂ h₂ f' g' r₂ hf' hg' e₂
+    rw [e₁, e₂]
+    exact ⟨w₁, w₂, isGluing_congr (Compose.toPlain_wf ((Compose.wf_iff f).1 hf))
+      (Compose.toPlain_wf ((Compose.wf_iff g).1 hg)) iF iG gl₁ gl₂⟩
+  · have hty' : f'.target ≠ g'.source := by rw [← tf, ← tg]; exact hty
+    rw [(C01.compose_total B₁ h₁ f g hf hg).2 hty, (C01.compose_total B₂ h₂ f' g' hf' hg').2 hty']
+    trivial
+
+/-- congruence of the (backend-free) tensor -/
+theorem tensor_congr (f g f' g' : OHG O A) (hf : f.wf = true) (hg : g.wf = true)
+    (hf' : f'.wf = true) (hg' : g'.wf = true) (iF : f.toPlain ≅ f'.toPlain)
+    (iG : g.toPlain ≅ g'.toPlain) : ResWfIso (OHG.tensor f g) (OHG.tensor f' g') := by
+  obtain ⟨r, e, w⟩ := C02.tensor_ok f g hf hg
+  obtain ⟨r', e', w'⟩ := C02.tensor_ok f' g' hf' hg'
+  unfold ResWfIso
+  rw [e, e']
+  refine ⟨w, w', ?_⟩
+  rw [C02.tensor_toPlain f g r hf e, C02.tensor_toPlain f' g' r' hf' e']
+  exact juxt_congr (Compose.toPlain_wf ((Compose.wf_iff f).1 hf)) iF iG
+
+section functor
+variable {O1 A1 O2 A2 : Type}
+
+/-- a leg that came out of `map_half_spider` is a well-formed map into the image nodes -/
+theorem mapHalfSpider_ok (fw : IC (List O2)) (k r : FinFun) (hw : fw.valid = true) (hk : k.WF)
+    (h : SFunctor.mapHalfSpider fw k = .ok r) : r.WF ∧ r.target = fw.values.length := by
+  by_cases hl : k.target = fw.len
+  · obtain ⟨r', hr', ht, hwf, _⟩ := C12.mapHalfSpider_spec fw k hw hk hl
+    rw [h] at hr'
+    cases hr'
+    exact ⟨hwf, ht⟩
+  · rw [C12.mapHalfSpider_panics fw k hl] at h
+    cases h
+
+theorem identity_wf (w : List O) (i : OHG O A) (h : OHG.identity w = .ok i) :
+    i.wf = true ∧ i.h.w = w ∧ i.s = ⟨List.range w.length, w.length⟩ ∧
+      i.t = ⟨List.range w.length, w.length⟩ := by
+  rw [C04.identity_eq] at h
+  cases h
+  have hid : (⟨List.range w.length, w.length⟩ : FinFun).WF := fun x hx => List.mem_range.1 hx
+  refine ⟨C04.spider_wf _ _ w _ (by rw [C04.spider_eq]; simp) hid hid, rfl, rfl, rfl⟩
+
+/-- `spider_map_arrow` (the backend-dependent core of strict functor application: two
+    compositions) on two lawful backends and isomorphic well-formed operation images: isomorphic
+    diagrams, or the same `none` / a panic at the same site -/
+theorem spiderMapArrow_congr [DecidableEq O2] (B₁ B₂ : Backend) (h₁ : B₁.Lawful) (h₂ : B₂.Lawful)
+    (f : OHG O1 A1) (fw : IC (List O2)) (fx fx' : OHG O2 A2) (hf : f.wf = true)
+    (hw : fw.valid = true) (hx : fx.wf = true) (hx' : fx'.wf = true)
+    (ix : fx.toPlain ≅ fx'.toPlain) :
+    ResIso (SFunctor.spiderMapArrow B₁ f fw fx) (SFunctor.spiderMapArrow B₂ f fw fx') := by
+  have hfW := (Compose.wf_iff f).1 hf
+  unfold ResIso SFunctor.spiderMapArrow
+  refine ResRel.bind_same _ (fun i hi => ?_)
+  refine ResRel.bind_same _ (fun fs hfs => ?_)
+  refine ResRel.bind_same _ (fun es hes => ?_)
+  refine ResRel.bind_same _ (fun sxT hsxT => ?_)
+  refine ResRel.bind_same _ (fun sx hsx => ?_)
+  refine ResRel.bind_same _ (fun ft hft => ?_)
+  refine ResRel.bind_same _ (fun et het => ?_)
+  refine ResRel.bind_same _ (fun ytS hytS => ?_)
+  refine ResRel.bind_same _ (fun yt hyt => ?_)
+  obtain ⟨hiw, hiw', his, hit⟩ := identity_wf fw.values i hi
+  obtain ⟨fsW, fsT⟩ := mapHalfSpider_ok fw _ fs hw hfW.iw hfs
+  obtain ⟨esW, esT⟩ := mapHalfSpider_ok fw _ es hw hfW.sw hes
+  obtain ⟨ftW, ftT⟩ := mapHalfSpider_ok fw _ ft hw hfW.ow hft
+  obtain ⟨etW, etT⟩ := mapHalfSpider_ok fw _ et hw hfW.tw het
+  have hidW : (⟨List.range fw.values.length, fw.values.length⟩ : FinFun).WF :=
+    fun x hx => List.mem_range.1 hx
+  -- the two spiders are well-formed
+  have hsxT := Res.unwrap_eq_ok hsxT
+  rw [hit, (C06.coproduct_spec _ es).1 (by rw [esT])] at hsxT
+  cases hsxT
+  have hytS := Res.unwrap_eq_ok hytS
+  rw [his, (C06.coproduct_spec _ et).1 (by rw [etT])] at hytS
+  cases hytS
+  have sxwf : sx.wf = true := C04.spider_wf _ _ _ sx (Res.unwrap_eq_ok hsx) fsW
+    (C06.coproduct_wf _ es hidW esW (by rw [esT]))
+  have ytwf : yt.wf = true := C04.spider_wf _ _ _ yt (Res.unwrap_eq_ok hyt)
+    (C06.coproduct_wf _ et hidW etW (by rw [etT])) ftW
+  -- identity ⊗ operation images, then the two compositions
+  refine ResRel.bind (tensor_congr i fx i fx' hiw hx hiw hx' (iso_refl _) ix) ?_
+  rintro ifx ifx' ⟨ifxwf, ifxwf', iifx⟩
+  refine ResRel.bind (ResRel.unwrap _ (compose_congr B₁ B₂ h₁ h₂ sx ifx sx ifx' sxwf ifxwf sxwf
+    ifxwf' (iso_refl _) iifx)) ?_
+  rintro a b ⟨wa, wb, iab⟩
+  exact ResRel.mono (fun _ _ h => h.2.2)
+    (ResRel.unwrap _ (compose_congr B₁ B₂ h₁ h₂ a yt b yt wa ytwf wb ytwf iab (iso_refl _)))
+
+/-- functor application on two lawful backends for two strict functors with the same action on
+    objects (valid segmented arrays) and actions on operations that agree up to isomorphism of
+    well-formed diagrams -/
+theorem mapArrow_congr [DecidableEq O2] (B₁ B₂ : Backend) (h₁ : B₁.Lawful) (h₂ : B₂.Lawful)
+    (F₁ F₂ : SFunctor O1 A1 O2 A2) (f : OHG O1 A1) (hf : f.wf = true)
+    (hobjeq : F₁.mapObject f.h.w = F₂.mapObject f.h.w)
+    (hobj : ∀ fw, F₁.mapObject f.h.w = .ok fw → fw.valid = true)
+    (hops : ∀ ops, SFunctor.toOperations f = .ok ops →
+      ResWfIso (F₁.mapOperations ops) (F₂.mapOperations ops)) :
+    ResIso (SFunctor.mapArrow B₁ F₁ f) (SFunctor.mapArrow B₂ F₂ f) := by
+  unfold ResIso SFunctor.mapArrow
+  refine ResRel.bind_same _ (fun ops hops' => ?_)
+  refine ResRel.bind (hops ops hops') ?_
+  rintro fx fx' ⟨wx, wx', ix⟩
+  rw [← hobjeq]
+  refine ResRel.bind_same _ (fun fw hfw => ?_)
+  exact spiderMapArrow_congr B₁ B₂ h₁ h₂ f fw fx fx' hf (hobj fw hfw) wx wx' ix
+
+/-- **strict functor application does not depend on the backend's choices**
+    (`mapArrow_indep_of_compose`): for a strict functor whose image of the node labels of `f` is a
+    valid segmented array and whose image of the operations of `f` is a well-formed diagram,
+    `map_arrow` on two lawful backends returns isomorphic diagrams — or the same `none`, or a
+    panic at the same site (e.g. when the functor's images have the wrong shape). -/
+theorem functor_indep [DecidableEq O2] (B₁ B₂ : Backend) (h₁ : B₁.Lawful) (h₂ : B₂.Lawful)
+    (F : SFunctor O1 A1 O2 A2) (f : OHG O1 A1) (hf : f.wf = true)
+    (hobj : ∀ fw, F.mapObject f.h.w = .ok fw → fw.valid = true)
+    (hops : ∀ ops fx, SFunctor.toOperations f = .ok ops → F.mapOperations ops = .ok fx →
+      fx.wf = true) :
+    ResIso (SFunctor.mapArrow B₁ F f) (SFunctor.mapArrow B₂ F f) :=
+  mapArrow_congr B₁ B₂ h₁ h₂ F F f hf rfl hobj (fun ops ho =>
+    ResRel.refl_of _ (fun fx hfx => ⟨hops ops fx ho hfx, hops ops fx ho hfx, iso_refl _⟩))
+
+theorem mapArrow_indep_of_compose [DecidableEq O2] (B₁ B₂ : Backend) (h₁ : B₁.Lawful)
+    (h₂ : B₂.Lawful) (F : SFunctor O1 A1 O2 A2) (f : OHG O1 A1) (hf : f.wf = true)
+    (hobj : ∀ fw, F.mapObject f.h.w = .ok fw → fw.valid = true)
+    (hops : ∀ ops fx, SFunctor.toOperations f = .ok ops → F.mapOperations ops = .ok fx →
+      fx.wf = true) :
+    ResIso (SFunctor.mapArrow B₁ F f) (SFunctor.mapArrow B₂ F f) :=
+  functor_indep B₁ B₂ h₁ h₂ F f hf hobj hops
+
+/-- the hypotheses are satisfiable: the strict identity functor on the C01 witness `exF` -/
+example : C01.exF.wf = true ∧
+    ∃ ops fx fw, SFunctor.toOperations C01.exF = .ok ops ∧
+      (SFunctor.identityF (O := Nat) (A := Nat)).mapOperations ops = .ok fx ∧ fx.wf = true ∧
+      (SFunctor.identityF (O := Nat) (A := Nat)).mapObject C01.exF.h.w = .ok fw ∧
+      fw.valid = true :=
+  ⟨by decide, _, _, _, rfl, rfl, by decide, rfl, by decide⟩
+
+/-- PROVED PART of the optic clause (`optic_indep_partial`): application of the functor induced
+    by a strict optic is backend-independent up to isomorphism PROVIDED the optic's action on the
+    operations of `f` (which itself composes on the backend) is; everything after
+    `map_operations` is covered by `spiderMapArrow_congr`. -/
+theorem optic_indep_partial [DecidableEq O2] (B₁ B₂ : Backend) (h₁ : B₁.Lawful) (h₂ : B₂.Lawful)
+    (P : SOptic O1 A1 O2 A2) (f : OHG O1 A1) (hf : f.wf = true)
+    (hobj : ∀ fw, P.mapObject f.h.w = .ok fw → fw.valid = true)
+    (hops : ∀ ops, SFunctor.toOperations f = .ok ops →
+      ResWfIso (P.mapOperations B₁ ops) (P.mapOperations B₂ ops)) :
+    ResIso (SFunctor.mapArrow B₁ (P.toFunctor B₁) f) (SFunctor.mapArrow B₂ (P.toFunctor B₂) f) :=
+  mapArrow_congr B₁ B₂ h₁ h₂ (P.toFunctor B₁) (P.toFunctor B₂) f hf rfl hobj hops
+
+/-- MISSING PART of the optic clause (UNPROVED): the optic's action on operations on two lawful
+    backends, for component functors with valid object images / well-formed operation images and
+    valid residuals.  `optic.map_operations` is five compositions, two tensors (all covered by
+    `compose_congr` / `tensor_congr`) and `interleave_blocks` / `partial_dagger`; what is missing
+    is a characterisation of the latter two (well-formedness of their results, and that
+    `partial_dagger` maps isomorphic diagrams to isomorphic diagrams). -/
+def optic_mapOperations_indep_statement : Prop :=
+  ∀ (O1 A1 O2 A2 : Type) [DecidableEq O2] (B₁ B₂ : Backend), B₁.Lawful → B₂.Lawful →
+    ∀ (P : SOptic O1 A1 O2 A2) (ops : Operations O1 A1),
+      ops.a.valid = true → ops.b.valid = true → ops.x.length = ops.a.len →
+      ops.x.length = ops.b.len →
+      (∀ a fw, P.fwd.mapObject a = .ok fw → fw.valid = true) →
+      (∀ a fw, P.rev.mapObject a = .ok fw → fw.valid = true) →
+      (∀ m, P.residual ops = .ok m → m.valid = true) →
+      (∀ fx, P.fwd.mapOperations ops = .ok fx → fx.wf = true) →
+      (∀ fx, P.rev.mapOperations ops = .ok fx → fx.wf = true) →
+      ResWfIso (P.mapOperations B₁ ops) (P.mapOperations B₂ ops)
+
+end functor
+
+/-! ## 9. the quantifier is not vacuous: lawful backends that resolve the choices differently -/
+
+/-- a backend resolving ALL FOUR open choices differently from `B`: ties of `argsort` in the
+    opposite order (sort the reversed array, map the positions back), connected components
+    numbered in the opposite order (`C01.flipBackend`), sparse-bincount keys in the opposite
+    order, and the LAST element instead of `B`'s choice as scatter filler -/
+def advBackend (B : Backend) : Backend :=
+  { C01.flipBackend B with
+    argsort := fun xs => (B.argsort xs.reverse).map (fun i => xs.length - 1 - i)
+    sparseBincount := fun xs => ((B.sparseBincount xs).1.reverse, (B.sparseBincount xs).2.reverse)
+    fillerIdx := fun n => n - 1 }
+
+theorem advBackend_lawful (B : Backend) (hB : B.Lawful) : (advBackend B).Lawful where
+  cc_length := (C01.flipBackend_lawful B hB).cc_length
+  cc_lt := (C01.flipBackend_lawful B hB).cc_lt
+  cc_onto := (C01.flipBackend_lawful B hB).cc_onto
+  cc_kernel := (C01.flipBackend_lawful B hB).cc_kernel
+  filler_lt := fun n hn => by show n - 1 < n; omega
+  argsort_perm := fun xs => by
+    show ((B.argsort xs.reverse).map (fun i => xs.length - 1 - i)).Perm _
+    have h := (hB.argsort_perm xs.reverse).map (fun i => xs.length - 1 - i)
+    rw [List.length_reverse] at h
+    refine h.trans ?_
+    have : (List.range xs.length).map (fun i => xs.length - 1 - i) = (List.range xs.length).reverse := by
+      rw [List.range_eq_range', List.reverse_range']
+      simp [List.range_eq_range']
+    rw [this]
+    exact List.reverse_perm _
+  argsort_sorted := fun xs => by
+    show (((B.argsort xs.reverse).map (fun i => xs.length - 1 - i)).map
+      (fun i => xs.getD i 0)).Pairwise (· ≤ ·)
+    have h := hB.argsort_sorted xs.reverse
+    rw [List.map_map]
+    have e : (B.argsort xs.reverse).map ((fun i => xs.getD i 0) ∘ (fun i => xs.length - 1 - i)) =
+        (B.argsort xs.reverse).map (fun i => xs.reverse.getD i 0) := by
+      apply List.map_congr_left
+      intro i hi
+      have hlt : i < xs.length := by
+        have := (hB.argsort_perm xs.reverse).mem_iff.1 hi
+        simpa using this
+      simp only [Function.comp, List.getD_eq_getElem?_getD, List.getElem?_reverse hlt]
+    rw [e]
+    exact h
+  sb_nodup := fun xs => List.nodup_reverse.2 (hB.sb_nodup xs)
+  sb_mem := fun xs v => by
+    show v ∈ (B.sparseBincount xs).1.reverse ↔ _
+    rw [List.mem_reverse]
+    exact hB.sb_mem xs v
+  sb_length := fun xs => by
+    show (B.sparseBincount xs).2.reverse.length = (B.sparseBincount xs).1.reverse.length
+    rw [List.length_reverse, List.length_reverse]
+    exact hB.sb_length xs
+  sb_count := fun xs k v hk => by
+    have hk : (B.sparseBincount xs).1.reverse[k]? = some v := hk
+    show (B.sparseBincount xs).2.reverse[k]? = _
+    have hlt : k < (B.sparseBincount xs).1.length := by
+      have := (List.getElem?_eq_some_iff.1 hk).1
+      simpa using this
+    rw [List.getElem?_reverse hlt] at hk
+    rw [List.getElem?_reverse (by rw [hB.sb_length xs]; exact hlt), hB.sb_length xs]
+    exact hB.sb_count xs _ v hk
+
+/-- three lawful backends -/
+example : vecBackend.Lawful ∧ (C01.flipBackend vecBackend).Lawful ∧ (advBackend vecBackend).Lawful :=
+  ⟨vecBackend_lawful, C01.flipBackend_lawful _ vecBackend_lawful,
+    advBackend_lawful _ vecBackend_lawful⟩
+
+/-- … and `advBackend B` really resolves each of the four open choices differently from ANY lawful
+    `B` (tie order of argsort, key order of sparse bincount) resp. from the Vec backend (component
+    numbering, filler) -/
+theorem advBackend_differs (B : Backend) (hB : B.Lawful) :
+    B.argsort [5, 5] ≠ (advBackend B).argsort [5, 5] ∧
+    B.sparseBincount [1, 2] ≠ (advBackend B).sparseBincount [1, 2] := by
+  constructor
+  · intro h
+    have hp := hB.argsort_perm [5, 5]
+    change B.argsort [5, 5] = (B.argsort [5, 5]).map (fun i => 2 - 1 - i) at h
+    cases hl : B.argsort [5, 5] with
+    | nil => rw [hl] at hp; simpa using hp.length_eq
+    | cons a l =>
+      rw [hl] at h
+      simp only [List.map_cons, List.cons.injEq] at h
+      omega
+  · intro h
+    have hnd := hB.sb_nodup [1, 2]
+    have hm := hB.sb_mem [1, 2]
+    have hr : (B.sparseBincount [1, 2]).1 = (B.sparseBincount [1, 2]).1.reverse :=
+      congrArg Prod.fst h
+    have hp : (B.sparseBincount [1, 2]).1.Perm [1, 2] :=
+      (List.perm_ext_iff_of_nodup hnd (by decide)).2 hm
+    generalize (B.sparseBincount [1, 2]).1 = k at hnd hr hp
+    have hlen := hp.length_eq
+    match k, hlen with
+    | [a, b], _ =>
+      simp only [List.reverse_cons, List.reverse_nil, List.nil_append, List.cons_append,
+        List.cons.injEq, and_true] at hr
+      simp only [List.nodup_cons, List.mem_singleton] at hnd
+      exact hnd.1 hr.1
+
+example : vecBackend.cc [] [] 2 ≠ (advBackend vecBackend).cc [] [] 2 ∧
+    vecBackend.fillerIdx 2 ≠ (advBackend vecBackend).fillerIdx 2 := by decide
+
+/-- `compose` returns LITERALLY DIFFERENT composites on the Vec backend and on the adversarial
+    backends (the node numbering is reversed) … -/
+example : OHG.toPlain <$> OHG.compose vecBackend C01.exF C01.exG =
+      .ok ⟨[10, 20, 30], [⟨7, [0], [1, 1]⟩, ⟨8, [1, 1], [2]⟩], [0], [2]⟩ ∧
+    OHG.toPlain <$> OHG.compose (C01.flipBackend vecBackend) C01.exF C01.exG =
+      .ok ⟨[30, 20, 10], [⟨7, [2], [1, 1]⟩, ⟨8, [1, 1], [0]⟩], [2], [0]⟩ ∧
+    OHG.toPlain <$> OHG.compose (advBackend vecBackend) C01.exF C01.exG =
+      .ok ⟨[30, 20, 10], [⟨7, [2], [1, 1]⟩, ⟨8, [1, 1], [0]⟩], [2], [0]⟩ := by decide
+
+/-- … which `compose_indep` shows isomorphic -/
+example : ∃ r₁ r₂, OHG.compose vecBackend C01.exF C01.exG = .ok r₁ ∧
+    OHG.compose (advBackend vecBackend) C01.exF C01.exG = .ok r₂ ∧ r₁ ≠ r₂ ∧
+    r₁.toPlain ≅ r₂.toPlain ∧ r₂.toPlain ≅ r₁.toPlain := by
+  rcases compose_indep vecBackend (advBackend vecBackend) vecBackend_lawful
+    (advBackend_lawful _ vecBackend_lawful) C01.exF C01.exG (by decide) (by decide) with
+    ⟨h, _⟩ | ⟨_, r₁, r₂, e₁, e₂, _, _, i₁, i₂⟩
+  · exact absurd (by decide) h
+  · refine ⟨r₁, r₂, e₁, e₂, ?_, i₁, i₂⟩
+    rintro rfl
+    have h1 : OHG.toPlain <$> OHG.compose vecBackend C01.exF C01.exG =
+        .ok ⟨[10, 20, 30], [⟨7, [0], [1, 1]⟩, ⟨8, [1, 1], [2]⟩], [0], [2]⟩ := by decide
+    have h2 : OHG.toPlain <$> OHG.compose (advBackend vecBackend) C01.exF C01.exG =
+        .ok ⟨[30, 20, 10], [⟨7, [2], [1, 1]⟩, ⟨8, [1, 1], [0]⟩], [2], [0]⟩ := by decide
+    rw [e₁] at h1
+    rw [e₂] at h2
+    have := (Res.ok.inj h1).symm.trans (Res.ok.inj h2)
+    exact absurd this (by decide)
+
+/-- the coequalizers differ literally (class numbers exchanged) but have the same kernel -/
+example : FinFun.coequalizer vecBackend ⟨[0, 1], 4⟩ ⟨[1, 2], 4⟩ = .ok ⟨[0, 0, 0, 1], 2⟩ ∧
+    FinFun.coequalizer (advBackend vecBackend) ⟨[0, 1], 4⟩ ⟨[1, 2], 4⟩ = .ok ⟨[1, 1, 1, 0], 2⟩ := by
+  decide
+
+/-- surjectivity cannot be dropped in `universal_indep`: off the image of `q` the scatter filler
+    shows, and two lawful backends pick different fillers -/
+example : FinFun.coequalizerUniversalArr vecBackend ⟨[0, 1], 3⟩ ["x", "y"] = .ok ["x", "y", "x"] ∧
+    FinFun.coequalizerUniversalArr (advBackend vecBackend) ⟨[0, 1], 3⟩ ["x", "y"] =
+      .ok ["x", "y", "y"] := by decide
 
 end OH.C20
